@@ -131,12 +131,17 @@ def verify_one(args):
 
         texts = [to_smt2(o.hyps, o.goal, get_model=True) for o in eng.obligations]   # z3 API is not thread safe
 
+        from pyvc.solve import TIMEOUT_S as _FULL
+        full = timeout or _FULL
+        quick_budget = min(full, float(os.environ.get("VERIF_PHASE1_S", "8")))
+        budget = {"t": quick_budget}
+
         def solve(pair):
             o, smt2 = pair
             key = hashlib.sha256((ver + smt2).encode()).hexdigest()
             rec = _cache_get(key) if use_cache else None
             if rec is None:
-                r = check_smt2(smt2, want_model=True, timeout=timeout)
+                r = check_smt2(smt2, want_model=True, timeout=budget["t"])
                 rec = {"status": r["status"], "backend": r["backend"], "time_s": round(r["time_s"], 4), "reason": r.get("reason", "")}
                 if r["status"] == "refuted":
                     rec["model"] = (r.get("model") or "")[:8000]
@@ -152,8 +157,22 @@ def verify_one(args):
             rec.update({"id": o.oid, "kind": o.kind, "line": o.line, "props": list(o.props)})
             return rec
 
+        # two phases keep a FAILING run short: every obligation first gets a small budget (on the unchanged tree all of them are discharged
+        # within it); the ones left open are then re-run with the full budget - all of them when they are few, only the first few when a
+        # contract has many open obligations (a changed function that no longer meets its contract: more solver time would not change the verdict)
+        pairs = list(zip(eng.obligations, texts))
         with ThreadPoolExecutor(max_workers=int(os.environ.get("VERIF_SOLVER_THREADS", "4"))) as tp:
-            out["obligations"] = list(tp.map(solve, list(zip(eng.obligations, texts))))
+            recs = list(tp.map(solve, pairs))
+            open_ix = [i for i, r in enumerate(recs) if r["status"] == "unknown"]
+            if open_ix and full > quick_budget:
+                budget["t"] = full
+                retry = open_ix if len(open_ix) <= 8 else open_ix[:4]
+                for i, r in zip(retry, tp.map(solve, [pairs[i] for i in retry])):
+                    recs[i] = r
+                for i in open_ix:
+                    if i not in retry:
+                        recs[i]["reason"] = (recs[i].get("reason", "") + f" (budget {quick_budget:g}s only: {len(open_ix)} obligations of this contract are open)").strip()
+            out["obligations"] = recs
         if not ghost_unused and any(o["kind"] == "ghost-assert" and o["status"] == "refuted" for o in out["obligations"]):
             # a ghost assertion (a proof hint that is proved and then used as a fact) failed: what was proved after it rests on an unproved fact.
             # Second pass: the same contract with ghost assertions NOT used as facts; its verdicts on the non-hint obligations are what counts.
